@@ -243,7 +243,7 @@ impl SValue {
         // others
         let i1 = self.to_i();
         let i2 = v.to_i();
-        SValue::Int(i1 + i2)
+        SValue::Int(i1.wrapping_add(i2))
     }
 }
 
